@@ -730,3 +730,45 @@ def c12(tier):
         make_run=c12_tier_b_run, shrink=hg_shrink, expect_fn=hg_expect, write=False, key_fn=heap_key,
         level_text="real parallel marking (marking.rs) and parallel evacuation (minor.rs) with 1/2/4/8 workers as simulator tasks, real work stealing and termination detection, over generated object graphs; oracle = reference model + gc-verify + deadlock detection")
     return combine("C12", tier, [a, b], t0, ASSUME_B)
+
+
+def c04_tier_b_run(seed, prop, i, fault_free):
+    """Stop-the-world inside real executables: threads entering and leaving natives, starting,
+    exiting, blocking in the wait table and at barriers while collections are requested by
+    several threads at once (sync and mtheap scripts); M-stw armed in every operation."""
+    if i % 2 == 0:
+        r = sync_run(seed, prop, i, fault_free)
+    else:
+        r = mt_run(seed, prop, i, fault_free)
+    if not fault_free:
+        r["sim"]["pminor"] = max(r["sim"].get("pminor", 0), 400)
+        r["sim"]["pfull"] = max(r["sim"].get("pfull", 0), 200)
+        tb.cap_fault_rates(r["sim"], 300 + len(r["argv"]), r["exe"][1], 16, "--gc-verify" in r["dora_flags"])
+    return r
+
+
+def c04_expect(argv, run):
+    e = dict(run["expect"])
+    e["stdout"] = ms.expected(argv) if run["exe"][0] == "sync" else mm.expected(argv)
+    return e
+
+
+def c04(tier):
+    import tier_a
+    t0 = time.time()
+    a = tier_a.run_tier_a(
+        "C04", "stw", tier, quick_s=40, thorough_s=900, write=False,
+        level_text="seeded random / sticky / PCT / starvation schedules over generated 2-4 thread scenarios of polls, managed steps, native calls, concurrent stop-the-world requests, thread start, join and exit; sampled, not exhaustive",
+        real=["dora-runtime/src/safepoint.rs (stop_the_world, stop_threads, resume_threads, safepoint_slow)",
+              "dora-runtime/src/threads.rs (DoraThread::park/park_slow/unpark/unpark_slow/join/stop, parked_scope, Barrier, Threads::add_main_thread/add_thread/remove_current_thread/join_all)",
+              "dora-runtime/src/runtime.rs (Runtime state), all compiled from /repo's working tree with every mutex, condvar and the thread state byte as scheduling points"],
+        stub=["compiled code's safepoint poll (cmpb [tld.state],0; jne slow) transliterated as a load + call of the real safepoint_slow",
+              "managed work = a step that sets a harness flag and increments a fake heap word",
+              "the collector = the checking closure passed to the real stop_the_world",
+              "Runtime built with the zero collector and an empty Program"],
+        assumptions=["sequentially consistent interleavings only (shuttle); the protocol uses SeqCst on the state byte"])
+    b = run_tier_b_property(
+        "C04", tier, quick_s=35, thorough_s=600, drivers=["sync", "mtheap"], collectors=["copy", "sweep", "swiper"], codegens=["cannon", "boots"],
+        make_run=c04_tier_b_run, shrink=_ShrinkByDriver({"sync": sync_shrink, "mtheap": mt_shrink, "heapgraph": hg_shrink}), expect_fn=c04_expect, write=False, key_fn=heap_key,
+        level_text="M-stw monitor (every other registered thread Parked / ParkedSafepointRequested / Safepoint, runtime state Safepoint, one operation at a time, no managed allocation entering the runtime during the operation) armed in every collection of real multi-threaded executables under seeded schedules and injected collections; deadlock detection = nobody left out / no lost wake-up")
+    return combine("C04", tier, [a, b], t0, ASSUME_B)
